@@ -338,3 +338,64 @@ Proof.
   replace ((mu - mn * j) / (1 - j)) with (mn + (mu - mn) / (1 - j)) by (field; lra). lra.
 Qed.
 End GenMMM.
+
+(* ---------- min_max_median: range and median (generated from pbox_free.py: np.where over the probability grid) ---------- *)
+Lemma mass_mono_event (E1 E2 : R -> bool) : (forall x, E1 x = true -> E2 x = true) ->
+  forall ws xs, Forall (fun w => 0 <= w) ws -> mass E1 ws xs <= mass E2 ws xs.
+Proof.
+  intros HE. unfold mass. induction ws as [|w ws IH]; intros [|x xs] Hw; cbn [map dot]; try lra.
+  inversion Hw; subst. specialize (IH xs H2). pose proof (HE x) as Hx. destruct (E1 x), (E2 x); try lra; try nra; specialize (Hx eq_refl); discriminate.
+Qed.
+Lemma half_R : nofdec RN 5 1 = 1 / 2.
+Proof. unfold nofdec. cbn [ndiv nofZ RN T]. change (10 ^ Z.of_nat 1)%Z with 10%Z. lra. Qed.
+(* m is a median: at most half of the mass strictly below, at least half at or below *)
+Definition is_median (ws xs : list R) (m : R) : Prop :=
+  mass (fun x => Rltb x m) ws xs <= 1 / 2 /\ 1 / 2 <= mass (fun x => Rleb x m) ws xs.
+
+Section GenMedian.
+Variable pvals : list R.
+Variables mn mx med : R.
+Hypothesis Hne : mn <> mx.
+Lemma median_bounds : free_min_max_median RN pvals mn mx med =
+  Some (map (fun p => if Rltb p (1 / 2) then mn else med) pvals, map (fun p => if Rleb (1 / 2) p then mx else med) pvals).
+Proof. unfold free_min_max_median. cbn [neqb nltb nleb RN T]. destruct (Reqb_spec mn mx) as [E|_]; [contradiction|]. rewrite half_R. reflexivity. Qed.
+
+(* left bound at grid level pvals[k]: below every q whose cumulated probability reaches a level p >= pvals[k]
+   (p = 1/2 excluded: there the lower quantile of a distribution with several medians may lie below the stated one) *)
+Theorem median_left_sound (ws xs : list R) l r k p q : dist_ok ws xs -> Forall (fun x => mn <= x <= mx) xs -> is_median ws xs med ->
+  free_min_max_median RN pvals mn mx med = Some (l, r) ->
+  (k < length pvals)%nat -> nth k pvals 0 <= p -> 0 < p -> p <> 1 / 2 -> p <= mass (fun x => Rleb x q) ws xs -> nth k l 0 <= q.
+Proof.
+  intros (Hl & Hw & Hs) Hx (M1 & M2) E Hk Hp Hp0 Hph Hq. rewrite median_bounds in E. inversion E; subst l r. clear E.
+  rewrite (nth_map_in (fun p => if Rltb p (1 / 2) then mn else med)) by exact Hk. cbn beta.
+  destruct (Rltb_spec (nth k pvals 0) (1 / 2)) as [Hlt|Hge].
+  - destruct (Rle_dec mn q) as [|Hn]; [assumption|]. exfalso.
+    rewrite (mass_le_zero_below ws xs mn q Hl Hw) in Hq; [lra| |lra]. eapply Forall_impl; [|exact Hx]; cbn; intros; lra.
+  - destruct (Rle_dec med q) as [|Hn]; [assumption|]. exfalso.
+    assert (mass (fun x => Rleb x q) ws xs <= mass (fun x => Rltb x med) ws xs).
+    { apply mass_mono_event; [|exact Hw]. intros x Ex. apply Rleb_true in Ex. apply Rltb_true. lra. }
+    lra.
+Qed.
+(* right bound at grid level pvals[k]: above every q with at most p <= pvals[k] of the mass strictly below it *)
+Theorem median_right_sound (ws xs : list R) l r k p q : dist_ok ws xs -> Forall (fun x => mn <= x <= mx) xs -> is_median ws xs med ->
+  free_min_max_median RN pvals mn mx med = Some (l, r) ->
+  (k < length pvals)%nat -> p <= nth k pvals 0 -> p < 1 -> mass (fun x => Rltb x q) ws xs <= p -> q <= nth k r 0.
+Proof.
+  intros (Hl & Hw & Hs) Hx (M1 & M2) E Hk Hp Hp1 Hq. rewrite median_bounds in E. inversion E; subst l r. clear E.
+  rewrite (nth_map_in (fun p => if Rleb (1 / 2) p then mx else med)) by exact Hk. cbn beta.
+  destruct (Rleb_spec (1 / 2) (nth k pvals 0)) as [Hge|Hlt].
+  - destruct (Rle_dec q mx) as [|Hn]; [assumption|]. exfalso.
+    rewrite (mass_lt_one_above ws xs mx q Hl Hs) in Hq; [lra| |lra]. eapply Forall_impl; [|exact Hx]; cbn; intros; lra.
+  - destruct (Rle_dec q med) as [|Hn]; [assumption|]. exfalso.
+    assert (mass (fun x => Rleb x med) ws xs <= mass (fun x => Rltb x q) ws xs).
+    { apply mass_mono_event; [|exact Hw]. intros x Ex. apply Rleb_true in Ex. apply Rltb_true. lra. }
+    lra.
+Qed.
+(* the bounds are ordered whenever min <= median <= max *)
+Theorem median_ordered l r k : mn <= med <= mx -> free_min_max_median RN pvals mn mx med = Some (l, r) -> (k < length pvals)%nat -> nth k l 0 <= nth k r 0.
+Proof.
+  intros Hm E Hk. rewrite median_bounds in E. inversion E; subst l r.
+  rewrite (nth_map_in (fun p => if Rltb p (1 / 2) then mn else med)), (nth_map_in (fun p => if Rleb (1 / 2) p then mx else med)) by exact Hk. cbn beta.
+  destruct (Rltb_spec (nth k pvals 0) (1 / 2)), (Rleb_spec (1 / 2) (nth k pvals 0)); lra.
+Qed.
+End GenMedian.
